@@ -70,13 +70,16 @@ package core
 //@ callreq send d.deadlineChan: a1 == currDuty
 //@ callreq send d.deadlineChan: forallk(x, duties, res(1, deadlineFunc(x)) ==> !res(0, deadlineFunc(x)).Before(currDeadline))
 //@ callreq send d.deadlineChan: currDeadline == time.Date(9999, 1, 1, 0, 0, 0, 0, time.UTC) || (has(duties, currDuty) && currDeadline == res(0, deadlineFunc(currDuty)))
+//@ callreq delete: a2 == currDuty
 //@ callreq send input.success: (a1 == DeadlineExempt) == !canExpire
 //@ callreq send input.success: a1 == DeadlineExpired ==> canExpire
 //@ callreq send input.success: a1 == DeadlineExempt || a1 == DeadlineExpired || a1 == DeadlineScheduled
 //@ loop 1 invariant forallk(x, duties, res(1, deadlineFunc(x)) ==> !res(0, deadlineFunc(x)).Before(currDeadline))
 //@ loop 1 invariant forallk(x, duties, res(1, deadlineFunc(x)))
+//@ loop 1 invariant ncalls(delete) == ncalls(currTimer.Chan)
 //@ loop 1 invariant currDeadline == time.Date(9999, 1, 1, 0, 0, 0, 0, time.UTC) || (has(duties, currDuty) && currDeadline == res(0, deadlineFunc(currDuty)))
 //@ loop 1 invariant !currDeadline.After(time.Date(9999, 1, 1, 0, 0, 0, 0, time.UTC))
+//@ loop 1 invariant ncalls("send d.deadlineChan") == ncalls(currTimer.Chan)
 
 // ---- C05 / C10: duty gater ------------------------------------------------------------------
 
